@@ -298,4 +298,10 @@ def run(ck, tier):
     ck.guard(r8_handler_bound_to_its_server, ck, cx, 'R10')
     from .c17 import r9_read_size_covers_an_adu
     ck.guard(r9_read_size_covers_an_adu, ck, cx, 'R11')
+    from .. import strtypes as _st
+    ck.rule('R12', 'hexlify_packets, evaluated with the receive buffer on every reset / processing path outside any log-level guard, is total: what it joins is text')
+    ck.guard(_st.rule_join_total, ck, cx, 'R12', ('pymodbus.utilities.hexlify_packets',), 'the exception is raised again inside the except branch of the serving loop, which ends it')
+    from .. import strtypes as _st2
+    ck.rule('R13', 'the text of the library exceptions is built totally: a __str__ that concatenates an attribute is given text by every construction site')
+    ck.guard(_st2.rule_exception_text_total, ck, cx, 'R13', 'the serving coroutine / thread ends with a TypeError raised while logging the exception it had caught')
     return cx.idx
